@@ -82,7 +82,7 @@ def _registered(ctx, cls: str) -> Tuple[Dict[str, List[int]], List[Tuple[str, st
                     reg.setdefault(what, []).append(node.lineno)
                     gs = flow.guards_at(node) or set()
                     for key, pol in gs:
-                        k = _subst_env(key, w.env)
+                        k = _subst_env(key, w.env).replace(f"self.{iter_attr}[*]", "self")
                         if not (pol and k in ALLOWED_REG_GUARDS):
                             guarded.append((what, f"{k} is {pol}", node.lineno))
 
